@@ -260,9 +260,17 @@ def run_cli_route(ctx, picks, tmp, xdir, seed, with_h5=True, model=None):
     from taurex.data.spectrum.observed import ObservedSpectrum
     from taurex.instruments.snr import SNRInstrument
     model = model or MODELS[seed % len(MODELS)]
-    lib = library_model(model, xdir)
-    res = lib.model()
-    wn, spec = np.array(res[0], dtype=float), np.array(res[1], dtype=float)
+    try:
+        lib = library_model(model, xdir)
+        res = lib.model()
+        wn, spec = np.array(res[0], dtype=float), np.array(res[1], dtype=float)
+        if wn.ndim != 1 or wn.shape != spec.shape or not np.all(np.isfinite(spec)):
+            raise ValueError('native spectrum of shape %s on a grid of shape %s, finite: %s' % (spec.shape, wn.shape, bool(np.all(np.isfinite(spec)))))
+    except BaseException as ex:     # the well-formed components of the fixture do not give a spectrum through the library
+        ctx.verdict('WellFormedFileBuilds', False, cls='bin:library-model:%s' % model, detail='the %s model of the fixture built through the library: %s: %s' % (
+            model, type(ex).__name__, ex), vector=dict(binroute='program', model=model, bt='absent', written='absent', obs='none', inst='none', eff='native',
+                                                       klass='NativeBinner', grid=[], key='', tri=0, acc='', raw=[]))
+        return 0, model
     n = 0
     for j, v in enumerate(picks):
         cls = bin_cls(v) + ':route=program'
@@ -307,43 +315,49 @@ def run_cli_route(ctx, picks, tmp, xdir, seed, with_h5=True, model=None):
         except BaseException as ex:
             ctx.verdict('CLIEqualsLibrary', False, cls=cls, detail='the outputs of the program cannot be read: %s: %s' % (type(ex).__name__, ex), vector=vec)
             continue
-        # the resampler in force, through the library
-        if v['eff'] == 'native':
-            binner, egrid = lib.defaultBinner(), wn
-        elif v['eff'] == 'observed':
-            binner, egrid = ObservedSpectrum(obsfile).create_binner(), grid_of(v)
-        else:
-            binner, egrid = spec_binner(v), grid_of(v)
-            if v['klass'] == 'SimpleBinner' and not edges_clear(egrid, wn):
-                raise Machinery('FactoryBin: a bin edge of %s = %s coincides with a native point of the fixture' % (v['key'], v['raw']))
-        ebin = np.asarray(binner.bindown(wn, spec)[1], dtype=float)
-        what = {'native': 'not resampled', 'observed': 'resampled to the observation grid', 'manual': 'resampled by %s on the documented %s grid' % (v['klass'], v['key'])}[v['eff']]
-        if v['inst'] == 'snr':
-            e_wn, e_sp, e_noise = SNRInstrument(SNR=SNR, binner=binner).model_noise(lib, model_res=res, num_observations=NOBS)[:3]
-            ok = col.shape[1] >= 3 and _same(col[:, 0], 10000 / np.asarray(e_wn), GRID_RTOL) and _same(col[:, 1], e_sp, SPEC_RTOL) and _same(col[:, 2], e_noise, SPEC_RTOL) \
-                and _same(10000 / np.asarray(e_wn), 10000 / egrid, GRID_RTOL)
-            ctx.verdict('CLIEqualsLibrary', ok, cls=cls, detail='-S holds %d rows, wavelengths %s, spectrum %s, noise %s; the library model %s and passed through SNRInstrument(%g).model_noise(.., %g) '
-                        'gives %d rows, wavelengths %s, spectrum %s, noise %s' % (col.shape[0], col[:3, 0], col[:3, 1], col[:3, 2] if col.shape[1] > 2 else None, what, SNR, NOBS,
-                                                                               len(e_sp), (10000 / egrid)[:3], np.asarray(e_sp)[:3], np.asarray(e_noise)[:3]), vector=vec)
+        try:        # (a wrong shape / a missing column / an exception on the way is a verdict, not a crash)
+            # the resampler in force, through the library
+            if v['eff'] == 'native':
+                binner, egrid = lib.defaultBinner(), wn
+            elif v['eff'] == 'observed':
+                binner, egrid = ObservedSpectrum(obsfile).create_binner(), grid_of(v)
+            else:
+                binner, egrid = spec_binner(v), grid_of(v)
+                if v['klass'] == 'SimpleBinner' and not edges_clear(egrid, wn):
+                    raise Machinery('FactoryBin: a bin edge of %s = %s coincides with a native point of the fixture' % (v['key'], v['raw']))
+            ebin = np.asarray(binner.bindown(wn, spec)[1], dtype=float)
+            what = {'native': 'not resampled', 'observed': 'resampled to the observation grid', 'manual': 'resampled by %s on the documented %s grid' % (v['klass'], v['key'])}[v['eff']]
+            if v['inst'] == 'snr':
+                e_wn, e_sp, e_noise = SNRInstrument(SNR=SNR, binner=binner).model_noise(lib, model_res=res, num_observations=NOBS)[:3]
+                ok = col.shape[1] >= 3 and _same(col[:, 0], 10000 / np.asarray(e_wn), GRID_RTOL) and _same(col[:, 1], e_sp, SPEC_RTOL) and _same(col[:, 2], e_noise, SPEC_RTOL) \
+                    and _same(10000 / np.asarray(e_wn), 10000 / egrid, GRID_RTOL)
+                ctx.verdict('CLIEqualsLibrary', ok, cls=cls, detail='-S holds %d rows, wavelengths %s, spectrum %s, noise %s; the library model %s and passed through SNRInstrument(%g).model_noise(.., %g) '
+                            'gives %d rows, wavelengths %s, spectrum %s, noise %s' % (col.shape[0], col[:3, 0], col[:3, 1], col[:3, 2] if col.shape[1] > 2 else None, what, SNR, NOBS,
+                                                                                   len(e_sp), (10000 / egrid)[:3], np.asarray(e_sp)[:3], np.asarray(e_noise)[:3]), vector=vec)
+                if with_h5:
+                    ok = all(k in stored for k in ('instrument_spectrum', 'instrument_noise', 'instrument_wngrid')) and _same(stored['instrument_wngrid'], egrid, GRID_RTOL) \
+                        and _same(stored['instrument_spectrum'], e_sp, SPEC_RTOL) and _same(stored['instrument_noise'], e_noise, SPEC_RTOL)
+                    ctx.verdict('CLIEqualsLibrary', ok, cls=cls + ':stored', detail='the stored instrument spectrum / noise / grid %s differ from the library (%s)' % (
+                        {k: np.asarray(x).shape for k, x in stored.items()}, what), vector=vec)
+            else:
+                ok = _same(col[:, 0], 10000 / egrid, GRID_RTOL) and _same(col[:, 1], ebin, SPEC_RTOL)
+                ctx.verdict('CLIEqualsLibrary', ok, cls=cls, detail='-S holds %d rows, wavelengths %s (%s), spectrum %s (%s); the library model %s has %d rows, wavelengths %s, spectrum %s' % (
+                    col.shape[0], col[:3, 0], _maxrel(col[:, 0], 10000 / egrid), col[:3, 1], _maxrel(col[:, 1], ebin), what, len(ebin), (10000 / egrid)[:3], ebin[:3]), vector=vec)
             if with_h5:
-                ok = all(k in stored for k in ('instrument_spectrum', 'instrument_noise', 'instrument_wngrid')) and _same(stored['instrument_wngrid'], egrid, GRID_RTOL) \
-                    and _same(stored['instrument_spectrum'], e_sp, SPEC_RTOL) and _same(stored['instrument_noise'], e_noise, SPEC_RTOL)
-                ctx.verdict('CLIEqualsLibrary', ok, cls=cls + ':stored', detail='the stored instrument spectrum / noise / grid %s differ from the library (%s)' % (
-                    {k: np.asarray(x).shape for k, x in stored.items()}, what), vector=vec)
-        else:
-            ok = _same(col[:, 0], 10000 / egrid, GRID_RTOL) and _same(col[:, 1], ebin, SPEC_RTOL)
-            ctx.verdict('CLIEqualsLibrary', ok, cls=cls, detail='-S holds %d rows, wavelengths %s (%s), spectrum %s (%s); the library model %s has %d rows, wavelengths %s, spectrum %s' % (
-                col.shape[0], col[:3, 0], _maxrel(col[:, 0], 10000 / egrid), col[:3, 1], _maxrel(col[:, 1], ebin), what, len(ebin), (10000 / egrid)[:3], ebin[:3]), vector=vec)
-        if with_h5:
-            ok = 'native_spectrum' in stored and _same(stored['native_spectrum'], spec, SPEC_RTOL) and _same(stored.get('native_wngrid', []), wn, GRID_RTOL)
-            if v['obs'] != 'self':      # (`self`: the stored resampling is the one of the simulated observation)
-                if v['eff'] == 'native':
-                    ok = ok and 'binned_spectrum' not in stored
-                else:
-                    ok = ok and 'binned_spectrum' in stored and _same(stored['binned_spectrum'], ebin, SPEC_RTOL) and \
-                        ('binned_wngrid' not in stored or _same(stored['binned_wngrid'], egrid, GRID_RTOL))
-            ctx.verdict('CLIEqualsLibrary', ok, cls=cls + ':output', detail='Output/Spectra holds %s; the library model %s: native %d points%s' % (
-                {k: np.asarray(x).shape for k, x in stored.items()}, what, len(spec), '' if v['eff'] == 'native' else ', resampled %d points %s' % (len(ebin), ebin[:3])), vector=vec)
+                ok = 'native_spectrum' in stored and _same(stored['native_spectrum'], spec, SPEC_RTOL) and _same(stored.get('native_wngrid', []), wn, GRID_RTOL)
+                if v['obs'] != 'self':      # (`self`: the stored resampling is the one of the simulated observation)
+                    if v['eff'] == 'native':
+                        ok = ok and 'binned_spectrum' not in stored
+                    else:
+                        ok = ok and 'binned_spectrum' in stored and _same(stored['binned_spectrum'], ebin, SPEC_RTOL) and \
+                            ('binned_wngrid' not in stored or _same(stored['binned_wngrid'], egrid, GRID_RTOL))
+                ctx.verdict('CLIEqualsLibrary', ok, cls=cls + ':output', detail='Output/Spectra holds %s; the library model %s: native %d points%s' % (
+                    {k: np.asarray(x).shape for k, x in stored.items()}, what, len(spec), '' if v['eff'] == 'native' else ', resampled %d points %s' % (len(ebin), ebin[:3])), vector=vec)
+        except Machinery:
+            raise
+        except BaseException as ex:
+            ctx.verdict('CLIEqualsLibrary', False, cls=cls, detail='the outputs of the program (-S %s) cannot be compared with the library model: %s: %s' % (
+                np.asarray(col).shape, type(ex).__name__, ex), vector=vec)
     for e in ('par', 'txt', 'h5'):
         p = os.path.join(tmp, 'binsect.' + e)
         if os.path.exists(p):
